@@ -237,6 +237,12 @@ def run_shard(spec):
                                       'write([fv, true][0]); write([ci, bv][0]); write([cb, 1, iv is byte][2]);')))
     for tag, tsrc, targs in memprogs.cases(spec['seed'], 0)[:3]:
         progs.append((None, targs, tsrc))
+    # the templates in which the exact stack size decides (exact-fit dynamic arrays, write(int) as deepest point): all of them, spread over the shards
+    tight = [(tag, tsrc, targs) for tag, tsrc, targs in memprogs.cases(0, 0) if tag.startswith(('exact-fit', 'write-deepest'))]
+    tight.sort(key=lambda c: (c[0], c[2]))
+    for j, (tag, tsrc, targs) in enumerate(tight):
+        if j % 16 == spec['seed'] % 16:
+            progs.append((None, targs, tsrc))
     if spec['seed'] % 4 == 0:
         from .c17 import CALLER_PROG
         for n in ('12345', '-32768', '999'):
